@@ -69,6 +69,21 @@ Theorem C11_routing : forall s, reachable s -> forall k,
 Proof. exact routing. Qed.
 Print Assumptions C11_routing.
 
+(* "fails immediately rather than waiting for a timeout": in every schedule, whatever follows, the answer
+   to a call for a key that is not online at that moment is the very next observation (nothing any
+   connection, timer or caller does later is needed for it), and the call changes neither the registry nor
+   any connection *)
+Theorem C11_not_online_at_once : forall sched1 sched2 k,
+  Forall nonempty_key sched1 ->
+  (forall c, ~ owner (final step init sched1) c k) ->
+  trace step init (sched1 ++ Send k :: sched2) =
+    trace step init sched1 ++
+    ONotExist (ncall (final step init sched1)) ::
+    trace step {| reg := reg (final step init sched1); conns := conns (final step init sched1);
+                  ncall := ncall (final step init sched1) + 1 |} sched2.
+Proof. exact not_online_at_once. Qed.
+Print Assumptions C11_not_online_at_once.
+
 (* callbacks, for EVERY schedule (no hypothesis): what connection c has been told so far is a
    prefix of one legal life and agrees with the connection's state ... *)
 Theorem C11_callbacks : forall sched c,
